@@ -4,8 +4,9 @@ C06  Bounded work and output.
 Proved here: the size bounds of the escapers; the linear bound of the backtick scanner, for the
 specification-level memo and for the positional memo the code implements; termination of `process_emphasis`,
 the linear bound of its opener search for the code as it is (since /repo commit 9704a60) and the quadratic
-lower bound of the loop before that repair on the rule-of-three family; the quadratic cost of the memo-less
-code-dollar scanner (a defect of the pinned tree, listed as a known finding); the output size of the
+lower bound of the loop before that repair on the rule-of-three family; the linear bound of the dollar
+scanners with their "no closer ahead" flags (since /repo commit 657287d; `$` scans ended by the space / digit
+rule excepted, with a counterexample) and the quadratic cost of the memo-less code-dollar scanner before it; the output size of the
 HTML formatter model (per node, and whole trees without footnote definitions); the caps (reference budget,
 table autocompletion, XML indentation, link label length, parenthesis depth). Linearity of the block parser
 and of the whole inline loop is measured by the search stage (step counters on input families), not proved.
@@ -15,6 +16,7 @@ import Comrak.Lemmas.CostBt
 import Comrak.Lemmas.CostEmph
 import Comrak.Lemmas.CostEmphQ
 import Comrak.Lemmas.CostHtml
+import Comrak.Lemmas.CostDl
 namespace Comrak.C06
 open Comrak Bytes Comrak.Cost
 
@@ -398,7 +400,51 @@ theorem html_backrefs_size (name : Bytes) (fnIx D k r : Nat) (h : ∀ n, r ≤ n
 theorem html_size_factor_six_counterexample :
     (renderHtml {} {} (.node (.text [0x22, 0x22, 0x22]) {} .nil)).length = 6 * 3 := by decide
 
-/-! ## The code-dollar scanner has no memo: quadratic on `("$`a")^n` -/
+/-! ## The dollar scanners: linear since /repo commits 657287d and b4925f3
+
+`Cost.dlLoop true mc md` is the inline loop restricted to letters, digits, spaces, `$`, backtick and backslash
+with `handle_dollars` as the code is now: `scan_to_closing_code_dollar` returns at once when
+`no_code_dollar_closer` is set and sets it when a scan runs to the end of the input; `scan_to_closing_dollar(len)`
+returns at once when it would start before `no_dollar_closer_before[len]`, and every failed scan (end of the
+input, space before the closing `$`, digit after it) records the position at which it failed.
+`dlSteps mc md` is its `dollar-scan` step count, equal to the real counter in K. -/
+
+/-- The amortised bound from any state of the inline loop: 2 per byte ahead + the potential of the memos. -/
+theorem dlLoop_amortised (mc md : Bool) (inp : Bytes) (fuel pos : Nat) (memo : Nat → Nat) (scanned : Bool) (fl : DlFlags) :
+    dlCost (dlLoop true mc md inp fuel pos memo scanned fl) ≤ 2 * (inp.length - pos) + flagPot md fl inp.length :=
+  dlLoop_bound mc md inp fuel pos memo scanned fl
+
+/-- **The code-dollar scanner as it is now is linear**: with `math_dollars` off, the `dollar-scan` steps of a
+    whole inline text are at most `3 n` for `n` bytes, for every text (at most one scan runs to the end - it
+    sets `no_code_dollar_closer` -, a scan that finds its `` `$ `` costs what it consumes and the loop resumes
+    behind it, a closer too close to make a span costs at most 2). -/
+theorem dollar_linear (mc : Bool) (inp : Bytes) : dlSteps mc false inp ≤ 3 * inp.length := by
+  have h := dlLoop_bound mc false inp (inp.length + 1) 0 (fun _ => 0) false {}
+  simp only [dlSteps, dlEvents]
+  simp only [flagPot, nb] at h
+  simp at h
+  omega
+
+/-- **The dollar scanners as they are now are linear, with `math_dollars` too**: at most `5 n` `dollar-scan`
+    steps for every text of `n` bytes, with or without `math_code`. A `$` / `$$` scan only runs when it starts at
+    or behind the position where the last one of its length failed; it then either finds its closer (and the
+    loop resumes behind what it consumed) or fails at a later byte `q` after `q - p + 1` steps and moves the
+    record to `q`: the records only move forward, `n` bytes each in all.
+    History: /repo commit 657287d only remembered scans that ran to the end of the input; the `$` scans ended by
+    the space / digit rule set nothing, and `"a" ++ "$\\" x k ++ " $"` (every `$` an opener, every scan refused
+    at the last `$`) still cost about `1.5 k^2` steps (241001 for 1203 bytes at `k = 400`, found by this model
+    and confirmed against the real counter); repaired in /repo commit b4925f3, which this model follows. -/
+theorem math_dollar_linear (mc : Bool) (inp : Bytes) : dlSteps mc true inp ≤ 5 * inp.length := by
+  have h := dlLoop_bound mc true inp (inp.length + 1) 0 (fun _ => 0) false {}
+  simp only [dlSteps, dlEvents]
+  simp only [flagPot, nb] at h
+  simp at h
+  omega
+
+/-! ## Before /repo commit 657287d the code-dollar scanner had no memo: quadratic on `("$`a")^n`
+
+The theorems of this section are about `cdStepsOld` / `dlStepsOld`, the scanner as it was; the defect was
+repaired in /repo commit 657287d (`dollar_linear`, `math_dollar_linear`). -/
 
 def tri : Nat → Nat
   | 0 => 0
@@ -410,11 +456,11 @@ theorem sum_replicate (n p : Nat) : (List.replicate n p).sum = n * p := by
   | succ n ih => simp [List.replicate_succ, ih, Nat.add_mul]; omega
 
 /-- On `n` unclosed openers `p` bytes apart: `(p + 1) n (n + 1) / 2 - n` steps. -/
-theorem cdSteps_replicate (n p : Nat) : cdSteps (List.replicate n p) + n = (p + 1) * tri n := by
+theorem cdSteps_replicate (n p : Nat) : cdStepsOld (List.replicate n p) + n = (p + 1) * tri n := by
   induction n with
-  | zero => simp [cdSteps, tri]
+  | zero => simp [cdStepsOld, tri]
   | succ n ih =>
-    simp only [List.replicate_succ, cdSteps, sum_replicate, List.length_replicate, tri]
+    simp only [List.replicate_succ, cdStepsOld, sum_replicate, List.length_replicate, tri]
     simp only [Nat.mul_add, Nat.add_mul, Nat.mul_one, Nat.one_mul] at ih ⊢
     have : n * p = p * n := Nat.mul_comm n p
     omega
@@ -426,24 +472,25 @@ theorem tri_ge (n : Nat) : n * n + n ≤ 2 * tri n := by
     simp only [tri, Nat.mul_add, Nat.add_mul, Nat.mul_one, Nat.one_mul]
     omega
 
-/-- **Quadratic lower bound** for the pinned `scan_to_closing_code_dollar`: on a text with `n` executed
+/-- **Quadratic lower bound for `scan_to_closing_code_dollar` as it was before /repo commit 657287d**
+    (repaired there: `no_code_dollar_closer`; see `dollar_linear`): on a text with `n` executed
     openers none of which has a closer, `p >= 1` bytes after each `$` up to the next opener (the backtick at
-    least), the scanner takes at least `n^2 / 2` steps for `(p + 1) n` bytes of input (e.g. `` "$`a" ``
+    least), the scanner took at least `n^2 / 2` steps for `(p + 1) n` bytes of input (e.g. `` "$`a" ``
     repeated: the backtick of a failed opener opens a code span with the next backtick, which swallows every
     other `$`; the executed openers are 6 bytes apart, `p = 5`).
-    Known finding C06-code-dollar-quadratic; repair: a "no closer ahead" flag as for backticks. -/
-theorem dollar_quadratic (n p : Nat) (hp : 1 ≤ p) : n * n ≤ 2 * cdSteps (List.replicate n p) := by
+    Former known finding C06-code-dollar-quadratic, now `fixed`. -/
+theorem dollar_quadratic (n p : Nat) (hp : 1 ≤ p) : n * n ≤ 2 * cdStepsOld (List.replicate n p) := by
   have h0 := cdSteps_replicate n p
   have h1 := tri_ge n
   have h2 : 2 * tri n ≤ (p + 1) * tri n := Nat.mul_le_mul_right _ (by omega)
   omega
 
-/-! ### The byte-level scanner and the abstraction `cdSteps`
+/-! ### The byte-level scanner and the abstraction `cdStepsOld`
 
-`Cost.dlSteps` (the inline loop restricted to letters, `$`, backtick, backslash; equal to the real `dollar-scan`
-counter in K) is the sum of the costs of the executed openers; a failed scan costs the bytes after its
-`` $` `` + 1, i.e. the bytes after its `$`; summed over openers at increasing positions that is `cdSteps` of
-the pieces between them. -/
+`Cost.dlStepsOld` (the loop without the flags; it equalled the real `dollar-scan` counter in K before the repair)
+is the sum of the costs of the executed openers; a failed scan costs the bytes after its `` $` `` + 1, i.e. the
+bytes after its `$`; summed over openers at increasing positions that is `cdStepsOld` of the pieces between
+them (the driver still checks this abstraction against `dlStepsOld`). -/
 
 /-- A failed scan costs everything that is left + 1. -/
 theorem cdScan_fail_cost (prev : UInt8) (bs : Bytes) (h : (cdScan prev bs).2 = none) :
@@ -491,18 +538,18 @@ theorem cdPieces_total (len : Nat) : ∀ (r : List Nat) (s : Nat), cdAsc len (s 
     simp only [cdPieces, List.sum_cons, List.length_cons] at ih ⊢
     omega
 
-/-- **`cdSteps` is the sum of the failed scans**: if the executed openers have their `$` at increasing
+/-- **`cdStepsOld` is the sum of the failed scans**: if the executed openers have their `$` at increasing
     positions `ss` of a text of `len` bytes and every scan fails (cost = bytes after the `$`), the total is
-    `cdSteps` of the pieces. -/
+    `cdStepsOld` of the pieces. -/
 theorem cdSteps_pieces (len : Nat) : ∀ ss : List Nat, cdAsc len ss →
-    cdSteps (cdPieces len ss) = (ss.map (fun s => len - s - 1)).sum
-  | [], _ => by simp [cdPieces, cdSteps]
-  | [s], h => by simp [cdPieces, cdSteps]
+    cdStepsOld (cdPieces len ss) = (ss.map (fun s => len - s - 1)).sum
+  | [], _ => by simp [cdPieces, cdStepsOld]
+  | [s], h => by simp [cdPieces, cdStepsOld]
   | s :: s' :: r, h => by
     simp only [cdAsc] at h
     have ih := cdSteps_pieces len (s' :: r) h.2
     have ht := cdPieces_total len r s' h.2
-    simp only [cdPieces, cdSteps, List.map_cons, List.sum_cons] at ih ⊢
+    simp only [cdPieces, cdStepsOld, List.map_cons, List.sum_cons] at ih ⊢
     rw [ih]
     omega
 
@@ -580,15 +627,23 @@ example : emSteps true [⟨0x2A, 1, 1, true, false, 2⟩, ⟨0x2A, 1, 1, false, 
 example : emSteps false (emFam 0 3) = some 24 ∧ emSteps true (emFam 0 3) = some 21 := by decide
 example : noOddMatch [⟨0x2A, 1, 1, true, false, 2⟩, ⟨0x2A, 1, 1, false, true, 4⟩] := by
   intro o ho c hc; simp at ho hc; rcases ho with rfl | rfl <;> rcases hc with rfl | rfl <;> decide
-example : cdSteps [2, 2, 2] = 8 + 5 + 2 := by decide
--- "a" + "$`a" x 5: every other `$` is swallowed by the code span that the backtick of a failed opener opens
--- with the next backtick; the executed openers are 6 bytes apart and none closes
-example : (dlEvents [0x61, 0x24,0x60,0x61, 0x24,0x60,0x61, 0x24,0x60,0x61, 0x24,0x60,0x61, 0x24,0x60,0x61]).map
+example : cdStepsOld [2, 2, 2] = 8 + 5 + 2 := by decide
+-- "a" + "$`a" x 5. Before the repair: every other `$` is swallowed by the code span that the backtick of a failed
+-- opener opens with the next backtick; the executed openers are 6 bytes apart and none closes: 14 + 8 + 2 steps.
+example : (dlEventsOld true false [0x61, 0x24,0x60,0x61, 0x24,0x60,0x61, 0x24,0x60,0x61, 0x24,0x60,0x61, 0x24,0x60,0x61]).map
     (fun e => (e.dpos, e.cost, e.ranOut)) = [(1, 14, true), (7, 8, true), (13, 2, true)] := by decide
-example : cdSteps (cdPieces 16 [1, 7, 13]) = 14 + 8 + 2 := by decide
+example : cdStepsOld (cdPieces 16 [1, 7, 13]) = 14 + 8 + 2 := by decide
 example : cdAsc 16 [1, 7, 13] := by simp [cdAsc]
+-- As the code is: the first scan sets the flag, the later openers cost nothing.
+example : (dlEvents true false [0x61, 0x24,0x60,0x61, 0x24,0x60,0x61, 0x24,0x60,0x61, 0x24,0x60,0x61, 0x24,0x60,0x61]).map
+    (fun e => (e.dpos, e.cost, e.ranOut)) = [(1, 14, true)] := by decide
 -- a closer is a `$` right after a backtick, escaped or not: a$`a\`$
-example : (dlEvents [0x61, 0x24, 0x60, 0x61, 0x5C, 0x60, 0x24]).map (fun e => (e.dpos, e.cost, e.closed)) = [(1, 4, true)] := by decide
+example : (dlEvents true false [0x61, 0x24, 0x60, 0x61, 0x5C, 0x60, 0x24]).map (fun e => (e.dpos, e.cost, e.closed)) = [(1, 4, true)] := by decide
+-- math_dollars: a$b$ closes (2 steps); a$b $ is ended by the space rule (3 steps, rejected; the last `$` then runs out in 1 step); "$\\" x 3: one scan to the end
+example : (dlEvents false true [0x61, 0x24, 0x62, 0x24]).map (fun e => (e.cost, e.closed)) = [(2, true)] := by decide
+example : (dlEvents false true [0x61, 0x24, 0x62, 0x20, 0x24]).map (fun e => (e.cost, e.rejected)) = [(3, true), (1, false)] := by decide
+example : dlSteps false true [0x61, 0x24,0x5C,0x5C, 0x24,0x5C,0x5C, 0x24,0x5C,0x5C] = 9 ∧
+    dlStepsOld false true [0x61, 0x24,0x5C,0x5C, 0x24,0x5C,0x5C, 0x24,0x5C,0x5C] = 9 + 6 + 3 := by decide
 -- hypotheses of html_size_bound_partial are satisfiable: a paragraph with a text, no header ids
 example : HtmlSize.noFnT (.node .paragraph {} (.cons (.node (.text [0x61]) {} .nil) .nil)) := by
   simp [HtmlSize.noFnT, HtmlSize.noFnF]
